@@ -69,16 +69,20 @@ Local Notation HY lem := (lem K keqb keqb_spec g W nm nm_inj cn CN av ACT INACT)
 Local Notation HZ lem := (lem K keqb keqb_spec g W nm nm_inj cn CN av ACT INACT nm' nm'_inj) (only parsing).
 
 (** the new geometry as find_surface sees it: the recovered spacings, any position, default surfaces *)
-Variable x0 y0 : Qc.
+Variable x0 y0 ax0 ay0 : Qc.
 Variable a' : nat.
 Variable s0 : nat -> nat -> Qc.
-Notation g1 := (mkRgeo x0 y0 (goz g) (gdx g) (gdy g) (gdz g) a' 0 0 s0).
+Variable az0 : Qc.
+Notation g1 := (mkRgeo x0 y0 (goz g) ax0 ay0 (gdx g) (gdy g) (gdz g) a' 0 0 az0 s0).
+
+Lemma filter_nokeys (l : list (block K)) : filter (fun b => key_in K keqb (bkey b) []) l = [].
+Proof. induction l as [|a l IH]; [reflexivity|]. cbn [filter key_in existsb]. exact IH. Qed.
 
 Lemma cen_z_rock' k i j : (1 <= k)%nat -> cen_z K (blk (Cell k i j)) = Ok (zc g k i j).
 Proof. intros Hk. destruct k; [lia|]. reflexivity. Qed.
 
 Lemma find_col_surface_ok i j : (i < nx g)%nat -> (j < ny g)%nat -> (nz g <= fuel_of K GG)%nat ->
-  find_col_surface K keqb GG g1 (full_log K g nm nm') av nm' (i, j) = Ok (gsurf g i j).
+  find_col_surface K keqb GG g1 (full_log K g nm nm') av nm' [] (i, j) = Ok (gsurf g i j).
 Proof.
   intros Hi Hj FU. pose proof (wf_nz g W) as NZ. unfold find_col_surface.
   change (nz g1) with (nz g).
@@ -86,7 +90,7 @@ Proof.
   rewrite (HZ full_log_lookup (Cell (nz g) i j) PB).
   rewrite (find_block_present K keqb keqb_spec g nm nm_inj cn CN (Cell (nz g) i j) PB).
   destruct (HY track3_up_start i j Hi Hj (fuel_of K GG) FU) as [bl [sz [T [LB LS]]]].
-  change (mk_block nm (cellof g (Cell (nz g) i j))) with (blk (Cell (nz g) i j)). rewrite T. cbn [bind fst snd]. rewrite LB.
+  change (mk_block nm (cellof g (Cell (nz g) i j))) with (blk (Cell (nz g) i j)). rewrite T. cbn [bind fst snd]. rewrite LB. rewrite filter_nokeys. cbn [remove_all bind fst snd]. rewrite LB.
   destruct (HY ktop_from_spec i j (nz g) ltac:(lia) ltac:(apply has_bottom; assumption)) as [KT [HT TT]]. fold (ktop g i j) in KT, HT, TT.
   rewrite (cen_z_rock' (ktop g i j) i j ltac:(lia)). cbn [bind].
   assert (PT : present g (Cell (ktop g i j) i j)) by (apply rock_present; auto; lia).
